@@ -150,6 +150,12 @@ def regular_format(
         par = PRESET_PIXEL_ASPECT_RATIOS[rng.choice(PIXEL_ASPECT_RATIO_PRESETS)]
         vp["pixel_aspect_ratio_numer"] = int(par.numerator)
         vp["pixel_aspect_ratio_denom"] = int(par.denominator)
+    if par_from_any_preset and rng.random() < 0.12:
+        # moderate ratios (between 1:2 and 2:1) written with large terms: the same shapes as the presets, so the sprite
+        # keeps a sensible width; only ratios beyond 128:1 shrink it to nothing (still excluded, DESIGN section 7 item 6)
+        d = rng.choice([135, 1000, 999, 540, 129, 4096])
+        n = rng.randrange(max(129, d // 2 + 1), 2 * d)
+        vp["pixel_aspect_ratio_numer"], vp["pixel_aspect_ratio_denom"] = n, d
     strata["par"] = "%d:%d" % (vp["pixel_aspect_ratio_numer"], vp["pixel_aspect_ratio_denom"])
 
     # -- frame size -----------------------------------------------------------------
